@@ -1,9 +1,9 @@
 SPECIFICATION Spec
-CONSTANT N = 4
-CONSTANT Gen = FALSE
+CONSTANT N = 3
+CONSTANT Gen = TRUE
 CONSTANT KMin = 0
-CONSTANT KMax = 5
-CONSTANT InputPhase = TRUE
+CONSTANT KMax = 3
+CONSTANT InputPhase = FALSE
 CHECK_DEADLOCK FALSE
 INVARIANT TypeOK
 INVARIANT TargetsInv
